@@ -457,6 +457,37 @@ pub fn test_cold_start(case: &ColdCase) -> TestResult {
     Ok(Info::new(true))
 }
 
+/// A model in which every token is one character and has one tag category with `n_cands`
+/// candidates (more than the 8 scores a fixed-size buffer holds), each with its own bias and tag
+/// n-grams, plus many texts: whatever scratch space tag prediction uses for such tokens is busy in
+/// all threads at once.
+fn many_class_case(n_cands: usize) -> ThreadCase {
+    use vcommon::mirror::{TagModelSpec, TagNgramSpec, TagWeightSpec};
+    let alphabet = ['a', 'b', 'c', 'あ', '火', '1'];
+    let mut spec = ModelSpec { char_window: 1, type_window: 1, bias: 1, ..ModelSpec::default() };
+    for (ti, &c) in alphabet.iter().enumerate() {
+        let k = n_cands + ti % 2;
+        spec.tag_models.push(TagModelSpec {
+            token: c.to_string(),
+            tags: vec![(0..k).map(|j| format!("{c}{j}")).collect()],
+            char_ngrams: alphabet
+                .iter()
+                .enumerate()
+                .map(|(ai, &a)| TagNgramSpec {
+                    ngram: a.to_string(),
+                    weights: vec![TagWeightSpec { rel_position: 1, weights: (0..k).map(|j| ((j * 7 + ai * 3 + ti) % 11) as i32 - 5).collect() }],
+                })
+                .collect(),
+            type_ngrams: vec![],
+            bias: (0..k).map(|j| ((j * 5 + ti) % 9) as i32).collect(),
+        });
+    }
+    let texts = (0..300usize)
+        .map(|t| (0..40).map(|i| alphabet[(i * (t % 5 + 1) + t + i / 3) % alphabet.len()]).collect())
+        .collect();
+    ThreadCase { spec, texts }
+}
+
 /// Thread-stress sub-check alone (used by the ThreadSanitizer build in the thorough tier).
 pub fn run_threads_only(rep: &mut Report) {
     assert_send_sync::<Predictor>();
@@ -472,6 +503,13 @@ supervisor script",
                 .prop_map(|mc| ThreadCase { spec: mc.spec, texts: mc.texts })
         },
         move |c: &ThreadCase| test_threads(c, 16),
+    );
+    rep.run_enum(
+        "threads-many-classes-tsan",
+        "tokens with 9..40 tag candidates under the same ThreadSanitizer stress",
+        false,
+        [9usize, 17, 40].into_iter().map(many_class_case),
+        |c: &ThreadCase| test_threads(c, 16).map(|mut i| { i.nontrivial = true; i }),
     );
 }
 
@@ -492,6 +530,39 @@ tag state behind or contains a failed update.",
         case_strategy,
         test_case,
     );
+    rep.run_enum(
+        "long-reuse",
+        "deterministic histories that alternate texts of 65,535 .. 131,080 characters with short \
+ones on one sentence (predict with and without tags / stored scores, fill_tags, filters in \
+between): the final result must equal a fresh sentence's - buffers sized by an earlier, longer \
+or shorter text must leave no trace",
+        false,
+        {
+            let spec = crate::checks::c06::long_text_cases()[0].spec.clone();
+            let long = |n: usize, k: usize| -> String { (0..n).map(|i| ['a', 'b', 'a', 'a', '火', 'b', 'é'][(i * 7 + i / 5 + k) % 7]).collect() };
+            let mut cases = vec![];
+            for (k, (first, last)) in [(70_000usize, 5usize), (5, 70_000), (65_536, 65_535), (65_535, 65_537), (131_080, 300), (300, 131_080)].into_iter().enumerate() {
+                cases.push(ReuseCase {
+                    a: spec.clone(),
+                    b: spec.clone(),
+                    ops: vec![
+                        Op::Update(Fmt::Raw, long(first, k)),
+                        Op::Predict((k % 3) as u8 + 1),
+                        Op::FillTags,
+                        Op::Filter(7),
+                        Op::Update(Fmt::Raw, long(first / 2 + 1, k + 1)),
+                        Op::Predict(((k + 1) % 3) as u8 + 3),
+                        Op::Filter(6),
+                    ],
+                    final_text: long(last, k + 2),
+                    final_pred: ((k + 2) % 6) as u8,
+                    final_fill: k % 2 == 0,
+                });
+            }
+            cases.into_iter()
+        },
+        |c: &ReuseCase| test_case(c).map(|mut i| { i.nontrivial = true; i }),
+    );
     let threads = if rep.quick() { 8 } else { 16 };
     let n = rep.n(400, 10000);
     rep.run_prop(
@@ -506,6 +577,15 @@ compile time. Non-trivial = >= 2 texts and a model with tag models.",
                 .prop_map(|mc| ThreadCase { spec: mc.spec, texts: mc.texts })
         },
         move |c: &ThreadCase| test_threads(c, threads),
+    );
+    rep.run_enum(
+        "threads-many-classes",
+        "the same thread stress with deterministic models in which every one-character token has \
+9, 10, 16, 17 or 40 tag candidates in one category (more scores than a fixed 8-slot buffer \
+holds) and 300 texts of 40 tokens: 16 threads, every result must equal the single-threaded one",
+        false,
+        [9usize, 10, 16, 17, 40].into_iter().map(many_class_case),
+        |c: &ThreadCase| test_threads(c, 16).map(|mut i| { i.nontrivial = true; i }),
     );
     let (trials, threads) = if rep.quick() { (6, 16) } else { (40, 16) };
     rep.run_enum(
